@@ -104,6 +104,24 @@ def effect_obligations(root=None):
             if fn.name == "__init__" and cls:
                 init_assigns_bd[cls] = any(isinstance(n, ast.Assign) and any(isinstance(x, ast.Attribute) and x.attr == "bond_descriptors" and isinstance(x.value, ast.Name)
                                                                                and x.value.id == "self" for x in n.targets) for n in ast.walk(fn))
+        # class-level mutable containers ( `cache = {}` in a class body ): one object shared by every instance
+        class_mutables = {}
+        for c_ in ast.walk(t):
+            if isinstance(c_, ast.ClassDef):
+                for s_ in c_.body:
+                    tg = s_.targets if isinstance(s_, ast.Assign) else ([s_.target] if isinstance(s_, ast.AnnAssign) and s_.value is not None else [])
+                    v_ = getattr(s_, "value", None)
+                    if tg and (isinstance(v_, (ast.Dict, ast.List, ast.Set, ast.ListComp, ast.DictComp, ast.SetComp))
+                               or (isinstance(v_, ast.Call) and isinstance(v_.func, ast.Name) and v_.func.id in ("dict", "list", "set", "defaultdict", "OrderedDict", "deque"))):
+                        for x in tg:
+                            if isinstance(x, ast.Name):
+                                class_mutables.setdefault(c_.name, set()).add(x.id)
+        init_assigns = {}
+        for q, fn, chain, cls in _functions(t):
+            if fn.name == "__init__" and cls:
+                init_assigns[cls] = {x.attr for n in ast.walk(fn) if isinstance(n, (ast.Assign, ast.AnnAssign))
+                                     for x in (n.targets if isinstance(n, ast.Assign) else [n.target])
+                                     if isinstance(x, ast.Attribute) and isinstance(x.value, ast.Name) and x.value.id == "self"}
         for q, fn, chain, cls in _functions(t):
             has_rng = "rng" in _params(fn) or any("rng" in _params(c) for c in chain) \
                 or any(isinstance(n, ast.Attribute) and n.attr == "rng" and isinstance(n.value, ast.Name) and n.value.id == "self" for n in _own_nodes(fn))
@@ -153,6 +171,22 @@ def effect_obligations(root=None):
                         if cls and not init_assigns_bd.get(cls, False):
                             p_state.append(f"line {n.lineno}: in-place update of self.bond_descriptors in class {cls}, whose __init__ does not assign it "
                                            "(the class-level list of BigSMILESbase would be shared)")
+                # in-place update of a mutable container that lives in the class body (reached through self / cls / the class name) and is not
+                # replaced by an instance attribute in __init__: state shared by all objects of the class, i.e. module state
+                if cls and class_mutables.get(cls):
+                    tgt = None
+                    if isinstance(n, (ast.Assign, ast.AugAssign, ast.Delete)):
+                        for x in (n.targets if isinstance(n, (ast.Assign, ast.Delete)) else [n.target]):
+                            if isinstance(x, ast.Subscript):
+                                tgt = x.value
+                            elif isinstance(n, ast.AugAssign):
+                                tgt = x
+                    elif isinstance(n, ast.Call) and isinstance(n.func, ast.Attribute) and n.func.attr in (
+                            "append", "extend", "insert", "pop", "remove", "clear", "update", "setdefault", "add", "discard", "popitem", "appendleft", "sort", "reverse"):
+                        tgt = n.func.value
+                    if isinstance(tgt, ast.Attribute) and isinstance(tgt.value, ast.Name) and tgt.value.id in ("self", "cls", cls) \
+                            and tgt.attr in class_mutables[cls] and tgt.attr not in init_assigns.get(cls, set()) and tgt.attr != "bond_descriptors":
+                        p_state.append(f"line {n.lineno}: in-place update of {cls}.{tgt.attr}, a container created in the class body (shared by every {cls} object)")
             # defaults: `rng=_GLOBAL_RNG` is allowed (documented default); any other use was flagged above. Names in defaults are not in _own_nodes.
             ob(m, q, "rng-threaded", p_rng, "every callee that accepts a generator receives the generator in scope")
             ob(m, q, "no-ambient-random", p_amb, "no use of numpy's / python's global random state, the library's global generator only as the documented default")
